@@ -16,8 +16,11 @@ from lib import verif as _v
 from lib.verif import run_harness, read_jsonl
 
 PKG = "contractcourt"
-FILES = ["contractcourt/verif_breachwatch_test.go"]
-TEST = "^TestVerifBreachWatch$"
+# the brarflow stage (props/brarflow.py: the breach arbiter's multi-step retribution flow) lives in
+# the same package and shares helpers with this harness: both tests run in ONE `go test`
+# invocation (one compile + link); TestVerifBrarFlow writes its own trace (VERIF_OUT_BRARFLOW)
+FILES = ["contractcourt/verif_breachwatch_test.go", "contractcourt/verif_justiceflow_test.go"]
+TEST = "^(TestVerifBreachWatch|TestVerifBrarFlow)$"
 WARM = [{"pkg": PKG, "files": FILES}]
 ANCHOR = 330
 
@@ -147,11 +150,34 @@ def predicate(row):
     return fails
 
 
+def _read_tolerant(path):
+    """JSONL rows of a trace whose writer may have been killed mid-line."""
+    import json as _json
+    rows = []
+    try:
+        with open(path) as f:
+            for line in f:
+                line = line.strip()
+                if not line:
+                    continue
+                try:
+                    rows.append(_json.loads(line))
+                except ValueError:
+                    pass
+    except OSError:
+        pass
+    return rows
+
+
 def run_stage(ctx):
     t0 = time.time()
     cov = {}
     uid = ctx.uid("_bwp%d" % os.getpid())
     env = {"VERIF_SEED": str(ctx.seed), "VERIF_TIER": ctx.tier}
+    trace2 = os.path.join(_v.BUILD, "trace_%s_brarflow.jsonl" % uid)
+    env["VERIF_OUT_BRARFLOW"] = trace2
+    test = TEST
+    only_brar = False
     if ctx.replay:
         import json as _json
         try:
@@ -161,17 +187,50 @@ def run_stage(ctx):
         if "breachwatch" in (rep.get("signature") or "") and (rep.get("detail") or {}).get("case") is not None:
             env.update({"VERIF_SEED": str(rep["detail"].get("seed", ctx.seed)),
                         "VERIF_FIRST_CASE": str(rep["detail"]["case"]), "VERIF_CASES": "1"})
-    rc, trace, out = run_harness(uid, PKG, FILES, TEST, env=env, timeout=1500)
-    rows = read_jsonl(trace)
-    try:
-        os.remove(trace)
-    except OSError:
-        pass
+        if "brarflow" in (rep.get("signature") or "") and (rep.get("detail") or {}).get("case") is not None:
+            d = rep["detail"]
+            env.update({"VERIF_SEED": str(d.get("seed", ctx.seed)), "VERIF_BRAR_FIRST_CASE": str(d["case"]),
+                        "VERIF_BRAR_CASES": "1",
+                        "VERIF_BRAR_WALK": str(d["walk"] if d.get("walk") is not None else -1)})
+            test, only_brar = "^TestVerifBrarFlow$", True
+    if os.environ.get("VERIF_PUNISH_NO_BRARFLOW"):
+        test = "^TestVerifBreachWatch$"
+    rc, trace, out = run_harness(uid, PKG, FILES, test, env=env, timeout=1500)
+    rows = read_jsonl(trace) if not only_brar else []
+    rows2 = _read_tolerant(trace2)
+    for f in (trace, trace2):
+        try:
+            os.remove(f)
+        except OSError:
+            pass
     shutil.rmtree(os.path.join(_v.BUILD, "overlay", uid), ignore_errors=True)
-    if rc != 0 or not rows:
-        ctx.violation("harness_failed", "TestVerifBreachWatch", {"rc": rc, "log": out[-4000:]},
+    crashed = rc != 0 or (not rows and not only_brar)
+    if crashed:
+        ctx.violation("harness_failed", "TestVerifBreachWatch/TestVerifBrarFlow", {"rc": rc, "log": out[-4000:]},
                       signature="breachwatch-harness", failing_input=False)
-        return {"ok": False}
+    if "TestVerifBrarFlow" in test:
+        from props import brarflow
+        if not rows2 and crashed:
+            pass
+        elif not rows2:
+            ctx.violation("harness_failed", "TestVerifBrarFlow emitted no rows", {"rc": rc, "log": out[-3000:]},
+                          signature="brarflow-harness", failing_input=False)
+        else:
+            t1 = time.time()
+            cov["brarflow"] = brarflow.evaluate(ctx, rows2)
+            cov["brarflow"]["predicate_s"] = round(time.time() - t1, 1)
+            t1 = time.time()
+            brarflow.correspond(ctx, rows2, cov["brarflow"])
+            cov["brarflow"]["correspondence_s"] = round(time.time() - t1, 1)
+    if crashed:
+        # (the rows the brarflow test flushed before a crash were evaluated above: a concrete
+        # failing history beats the bare crash report)
+        cov["ok"] = False
+        return cov
+    if only_brar:
+        cov.update({"ok": bool(cov.get("brarflow", {}).get("ok")), "replayed": "brarflow",
+                    "wall_s": round(time.time() - t0, 1)})
+        return cov
     nviol, nbad = 0, 0
     hist = {"breach_before_snapshot": 0, "breach_after_snapshot": 0, "current": 0, "pending": 0,
             "watchers": {}, "justice_inputs": {}, "chan_type": {}, "aborted": {}}
